@@ -31,6 +31,7 @@ import (
 	"mellium.im/xmpp/stanza"
 	"mellium.im/xmpp/stream"
 
+	"mellium.im/xmpp/verifharness/bufconn"
 	"mellium.im/xmpp/verifharness/core"
 	"mellium.im/xmpp/verifharness/ctrl"
 	"mellium.im/xmpp/verifharness/sess"
@@ -258,7 +259,7 @@ type scenario struct {
 }
 
 var terminators = []string{"peer-close", "stream-error", "handler-error", "deadline"}
-var forced = []string{"X1a", "X1b", "X2", "X3", "X4"}
+var forced = []string{"X1a", "X1b", "X2", "X3", "X4", "X5a", "X5b"}
 
 func run(c *core.Case) {
 	if c.Index < len(forced)*2 {
@@ -277,6 +278,9 @@ type world struct {
 	loop    *sess.PeerLoop
 	termAt  atomic.Int64
 	serveAt atomic.Int64 // logical time at which Serve returned
+
+	faulted     bool         // a write fault was injected on the closing tag
+	wireAtClose atomic.Int64 // bytes on the wire when the first Close call returned (-1: none yet)
 }
 
 func newWorld(c *core.Case, o sess.Opts) *world {
@@ -286,6 +290,7 @@ func newWorld(c *core.Case, o sess.Opts) *world {
 		return nil
 	}
 	w := &world{c: c, p: p, h: &hist{}, o: o, serveCh: make(chan error, 1)}
+	w.wireAtClose.Store(-1)
 	handler := xmpp.HandlerFunc(func(t xmlstream.TokenReadEncoder, start *xml.StartElement) error {
 		if start.Name.Local == "fail" {
 			return errors.New("verif: handler failure requested by the peer")
@@ -337,6 +342,12 @@ func newWorld(c *core.Case, o sess.Opts) *world {
 	return w
 }
 
+// closed records how many bytes were on the wire when a Close call returned:
+// Close holds the output lock, so nothing may be written after that, ever.
+func (w *world) closed() {
+	w.wireAtClose.CompareAndSwap(-1, int64(w.p.Lib.WrittenLen()))
+}
+
 func (w *world) progress() int64 {
 	return w.h.clock.Load() + int64(w.p.Lib.WrittenLen()) + int64(w.p.Peer.WrittenLen())
 }
@@ -358,6 +369,7 @@ func (w *world) terminate(kind string) {
 		w.h.end(e, fmt.Sprint(err), "")
 		e = w.h.begin("app", "close", "")
 		err = w.p.S.Close()
+		w.closed()
 		w.h.end(e, fmt.Sprint(err), "")
 	}
 }
@@ -469,7 +481,19 @@ func (w *world) finish(term string, smp *sample) {
 	wire := w.p.Lib.Written()
 	ntags := bytes.Count(wire, []byte(closeTag))
 	c.Count("closing_tags_seen", ntags)
-	if ntags != 1 {
+	if at := w.wireAtClose.Load(); at >= 0 {
+		c.Count("close_returns_with_wire_snapshot", 1)
+		if int64(len(wire)) != at {
+			c.Violate("close:written-after-close-returned", "%d bytes on the wire when the first Close call returned, %d at the end: %q was written afterwards", at, len(wire), tail(wire[at:], 200))
+		}
+	}
+	if w.faulted {
+		// the write of the closing tag was made to fail: at most one (possibly
+		// partial) tag may exist, and nothing may follow the attempt
+		if ntags > 1 {
+			c.Violate("close:tags-after-fault", "%d closing tags on the wire although the first attempt to write it failed; tail: %q", ntags, tail(wire, 120))
+		}
+	} else if ntags != 1 {
 		c.Violate(fmt.Sprintf("close:tags=%d", ntags), "%d closing tags on the wire after Serve returned (terminator %s); tail: %q", ntags, term, tail(wire, 300))
 	}
 	if i := bytes.Index(wire, []byte(closeTag)); i >= 0 {
@@ -528,7 +552,7 @@ func (w *world) finish(term string, smp *sample) {
 			// side conditions, outside the model
 			n := onWire[e.Marker]
 			switch {
-			case e.Out == "ok" && name != "HandlerReply" && n != 1:
+			case e.Out == "ok" && name != "HandlerReply" && n != 1 && !w.faulted:
 				c.Violate("close:ok-not-on-wire:"+name, "%s(%s) returned nil but its element is on the wire %d times (before the closing tag)", name, e.Marker, n)
 			case e.Out == "closed" && n != 0:
 				c.Violate("close:closed-but-written:"+name, "%s(%s) failed with the output-closed error but its element is on the wire", name, e.Marker)
@@ -658,6 +682,7 @@ func runStress(c *core.Case) {
 				e := w.h.begin(fmt.Sprintf("closer%d", k), "close", "")
 				var err error
 				c.Guard("Close", func() { err = w.p.S.Close() })
+				w.closed()
 				w.h.end(e, fmt.Sprint(err), "")
 				for i, n := 0, cr.Intn(100); i < n; i++ {
 					runtime.Gosched()
@@ -724,6 +749,7 @@ func runForced(c *core.Case, id string, s2s bool) {
 			e := w.h.begin(actor, "close", "")
 			var err error
 			c.Guard("Close", func() { err = w.p.S.Close() })
+			w.closed()
 			w.h.end(e, fmt.Sprint(err), "")
 		}()
 		return done
@@ -787,6 +813,26 @@ func runForced(c *core.Case, id string, s2s bool) {
 		c.Count("forced_scenarios", 1)
 		w.finish(term, smp)
 		return
+	case "X5a", "X5b": // the transport fails (X5b: after 5 bytes) exactly on the write of the closing tag
+		e := w.h.begin("sender", "transmit:Send", "x5")
+		err := entries[0].do(context.Background(), w.p.S, "x5")
+		out, d := classifyErr(err)
+		w.h.end(e, out, d)
+		w.faulted = true
+		f := bufconn.NoFault()
+		if id == "X5a" {
+			_, wr, _ := w.p.Lib.Ops()
+			f.FailWrite = wr + 1
+		} else {
+			f.WriteBreakAfter = w.p.Lib.WrittenLen() + 5
+		}
+		w.p.Lib.SetFault(f)
+		for k := 1; k <= 2; k++ {
+			<-closeAsync(fmt.Sprintf("closer%d", k))
+		}
+		w.p.Lib.SetFault(bufconn.NoFault())
+		c.Count("close_under_write_fault", 1)
+		smp.Closers = 2
 	case "X4": // a user's Close is parked; the peer closes and Serve shuts down; then the user continues
 		r1 := ct.Park("close.enter", "")
 		d1 := closeAsync("closer1")
@@ -824,7 +870,7 @@ func Prop() *core.Prop {
 		ID:    "C10",
 		Level: core.Exploration,
 		Race:  true,
-		Rule:  "cases 0-9 are the forced orderings X1a/X1b/X2/X3/X4 (c2s and s2s) at the close.enter / senderr.enter yield points; the rest are stress histories on one served session: 0-3 closers (1-3 Close calls each, sometimes SetCloseDeadline), 1-4 senders drawing from 13 transmit entry points, peer-injected IQs answered by the handler, and one terminator from {peer close tag, peer stream error, handler error, silence + 50 ms close deadline} issued early or after the actors; afterwards every entry point is called once more on the closed session. Oracles: closing-tag count and bytes after it on the peer side; porcupine check of the recorded history against a two-state closable-log model; marker-on-wire side conditions; State()/TokenReader after Serve; Serve's return per terminator. Distinct = (kind, terminator, closers, some transmit overlapped a Close?, some transmit began after a Close returned?, tags).",
+		Rule:  "the first 14 cases are the forced scenarios X1a/X1b/X2/X3/X4 (orderings at the close.enter / senderr.enter yield points) and X5a/X5b (the transport fails, entirely or after 5 bytes, exactly on the write of the closing tag), each c2s and s2s; the rest are stress histories on one served session: 0-3 closers (1-3 Close calls each, sometimes SetCloseDeadline), 1-4 senders drawing from 13 transmit entry points, peer-injected IQs answered by the handler, and one terminator from {peer close tag, peer stream error, handler error, silence + 50 ms close deadline} issued early or after the actors; afterwards every entry point is called once more on the closed session. Oracles: closing-tag count and bytes after it on the peer side; porcupine check of the recorded history against a two-state closable-log model; marker-on-wire side conditions; State()/TokenReader after Serve; Serve's return per terminator. Distinct = (kind, terminator, closers, some transmit overlapped a Close?, some transmit began after a Close returned?, tags).",
 		Assumptions: []string{
 			"a transmit that overlaps a Close in time may land on either side of the closing tag",
 			"handler replies are buffered until the handler returns, so their on-wire side condition is not demanded; their error value is",
@@ -833,12 +879,12 @@ func Prop() *core.Prop {
 		},
 		Cases: func(tier string) int {
 			if tier == "thorough" {
-				return 10 + 2000
+				return len(forced)*2 + 2000
 			}
-			return 10 + 70
+			return len(forced)*2 + 70
 		},
 		Run: run,
-		Require: []string{"forced_scenarios", "stress_histories", "yield:close.enter", "yield:senderr.enter", "transmits_overlapping_a_close",
+		Require: []string{"forced_scenarios", "stress_histories", "close_under_write_fault", "close_returns_with_wire_snapshot", "yield:close.enter", "yield:senderr.enter", "transmits_overlapping_a_close",
 			"transmits_begun_after_a_close_returned", "late_transmits", "porcupine_checks",
 			"serve_returned:peer-close", "serve_returned:stream-error", "serve_returned:handler-error", "serve_returned:deadline"},
 		ReplayRepeats: 10,
